@@ -247,7 +247,77 @@ func checksums() {
 			bad("PseudoHeaderChecksum", fmt.Sprintf("src %x dst %x proto %d: %#04x want %#04x", src, dst, proto, got, want), nil)
 			break
 		}
+		// the same pair of addresses asked about by several protocols in a row (a host's TCP,
+		// UDP and ICMPv6 traffic to one peer): the answer is a function of all three arguments
+		if i%4 == 0 {
+			for j := 0; j < 4; j++ {
+				p2 := []uint8{6, 17, 58, 1, uint8(r.U32())}[r.Intn(5)]
+				got := header.PseudoHeaderChecksum(tcpip.TransportProtocolNumber(p2), tcpip.Address(src), tcpip.Address(dst))
+				want := rfc.Sum16([]byte{0, p2}, rfc.Sum16(dst, rfc.Sum16(src, 0)))
+				if got != want {
+					bad("PseudoHeaderChecksum", fmt.Sprintf("src %x dst %x proto %d (asked right after proto %d for the same addresses): %#04x want %#04x", src, dst, p2, proto, got, want), nil)
+					return
+				}
+				proto = p2
+			}
+			run.Count("pseudo_header_protocol_sequences_per_address_pair", 1)
+		}
 	}
+}
+
+// concurrentHeaders: the header functions are called from every endpoint's own goroutine,
+// so their result must not depend on what other goroutines are computing at the same time.
+// Eight workers run the TCP checksum helpers and the pseudo-header sum on their own buffers
+// and inputs (two address pairs are shared by all workers); every result is compared with
+// the independent computation.
+func concurrentHeaders() {
+	workers := 8
+	per := fw.N(150000, 3000000)
+	pairs := [][2][]byte{{{10, 0, 0, 1}, {10, 0, 0, 2}}, {{0xfd, 0, 0, 0, 0, 0, 0, 0, 0, 0, 0, 0, 0, 0, 0, 1}, {0xfd, 0, 0, 0, 0, 0, 0, 0, 0, 0, 0, 0, 0, 0, 0, 2}}}
+	var stop int32
+	var wg sync.WaitGroup
+	for w := 0; w < workers; w++ {
+		w := w
+		wg.Add(1)
+		go func() {
+			defer wg.Done()
+			r := fw.NewRand(run.Seed, "C15", "conc", w)
+			h := header.TCP(make([]byte, 20))
+			for i := 0; i < per && atomic.LoadInt32(&stop) == 0; i++ {
+				partial, length := uint16(r.U32()), uint16(r.U32())
+				switch i % 3 {
+				case 0:
+					copy(h, r.Bytes(20))
+					h[12] = 5<<4 | h[12]&0x0f // data offset: the 20 bytes at hand
+					got := h.CalculateChecksum(partial, length)
+					want := rfc.Sum16(h, rfc.Sum16([]byte{byte(length >> 8), byte(length)}, partial))
+					if got != want && atomic.CompareAndSwapInt32(&stop, 0, 1) {
+						bad("concurrent/tcp-CalculateChecksum", fmt.Sprintf("worker %d call %d: header %x partial %#04x length %d: %#04x, computed alone it is %#04x (other goroutines were computing other segments' checksums at the same time)", w, i, []byte(h), partial, length, got, want), nil)
+					}
+				case 1:
+					seq, ack, fl, wnd := r.U32(), r.U32(), byte(r.Intn(64)), uint16(r.U32())
+					h.EncodePartial(partial, length, seq, ack, fl, wnd)
+					sa := []byte{byte(seq >> 24), byte(seq >> 16), byte(seq >> 8), byte(seq), byte(ack >> 24), byte(ack >> 16), byte(ack >> 8), byte(ack)}
+					want := ^rfc.Sum16([]byte{byte(wnd >> 8), byte(wnd)}, rfc.Sum16(sa, rfc.Sum16([]byte{byte(length >> 8), byte(length), 0, fl}, partial)))
+					if got := h.Checksum(); (got != want || h.SequenceNumber() != seq || h.AckNumber() != ack || h.WindowSize() != wnd) && atomic.CompareAndSwapInt32(&stop, 0, 1) {
+						bad("concurrent/tcp-EncodePartial", fmt.Sprintf("worker %d call %d: partial %#04x length %d seq %d ack %d flags %#x window %d: checksum field %#04x, computed alone it is %#04x", w, i, partial, length, seq, ack, fl, wnd, got, want), nil)
+					}
+				default:
+					pr := pairs[r.Intn(2)]
+					p := []uint8{6, 17, 58, 1}[r.Intn(4)]
+					got := header.PseudoHeaderChecksum(tcpip.TransportProtocolNumber(p), tcpip.Address(pr[0]), tcpip.Address(pr[1]))
+					want := rfc.Sum16([]byte{0, p}, rfc.Sum16(pr[1], rfc.Sum16(pr[0], 0)))
+					if got != want && atomic.CompareAndSwapInt32(&stop, 0, 1) {
+						bad("concurrent/PseudoHeaderChecksum", fmt.Sprintf("worker %d call %d: src %x dst %x proto %d: %#04x want %#04x", w, i, pr[0], pr[1], p, got, want), nil)
+					}
+				}
+			}
+		}()
+	}
+	wg.Wait()
+	run.AddEvals(int64(workers * per))
+	run.Count("concurrent_header_calls", int64(workers*per))
+	run.Distinct(fw.Hash("concurrent-headers"))
 }
 
 func min(a, b int) int {
@@ -1089,6 +1159,7 @@ func TestC15(t *testing.T) {
 	run = fw.Start("C15", "exploration")
 	go runawayMonitor()
 	checksums()
+	concurrentHeaders()
 	codecs()
 	tcpCodec()
 	stable()
